@@ -9,6 +9,27 @@ def sh(cmd, **kw):
     return subprocess.run(cmd, shell=True, text=True, stdout=subprocess.PIPE, stderr=subprocess.STDOUT, **kw)
 
 
+def run_scratch(scratch, name, d, pids, tier):
+    """Same as run, on a private export of /repo's HEAD under <scratch>; evidence / replay files go to <scratch>/verif-out."""
+    shutil.rmtree(scratch, ignore_errors=True)
+    os.makedirs(scratch)
+    try:
+        assert sh(f'git -C /repo archive HEAD | tar -x -C {scratch}').returncode == 0
+        r = sh(f'cd {scratch} && git init -q . && git apply {d}/patch.diff')
+        if r.returncode:
+            print('PATCH-DOES-NOT-APPLY', name, r.stdout); sys.exit(3)
+        env = dict(os.environ, PYTHONPATH=scratch, PYRATES_VERIF_OUT=os.path.join(scratch, 'verif-out'))
+        for pid in pids:
+            r = sh(f'{ROOT}/check {pid} --tier {tier}', cwd=ROOT, env=env)
+            viol = [l for l in r.stdout.splitlines() if l.startswith('VIOLATION')]
+            print(f"{name} {pid} {tier}: {'DETECTED' if r.returncode == 1 and viol else 'MISSED' if r.returncode == 0 else 'MACHINERY rc=%d' % r.returncode}"
+                  f" ({len(viol)} violation lines)")
+            if r.returncode not in (0, 1):
+                print(r.stdout[-1500:])
+    finally:
+        shutil.rmtree(scratch, ignore_errors=True)
+
+
 def main():
     cmd = sys.argv[1]
     if cmd == 'import':
@@ -23,10 +44,15 @@ def main():
         tier = 'quick'
         if '--tier' in args:
             i = args.index('--tier'); tier = args[i + 1]; del args[i:i + 2]
+        scratch = None
+        if '--scratch' in args:       # run against a scratch copy of /repo's HEAD (leaves /repo and /verif/evidence alone)
+            i = args.index('--scratch'); scratch = args[i + 1]; del args[i:i + 2]
         name, pids = args[0], args[1:]
         d = os.path.join(ROOT, 'seeded', name)
         meta = json.load(open(os.path.join(d, 'meta.json')))
         pids = pids or [meta['property']]
+        if scratch:
+            return run_scratch(scratch, name, d, pids, tier)
         assert sh('git -C /repo status --porcelain --untracked-files=no').stdout.strip() == '', '/repo not clean'
         r = sh(f'git -C /repo apply {d}/patch.diff')
         if r.returncode:
